@@ -496,6 +496,40 @@ def ddvectors(ctx):
         ctx.ob('DDVECTORS', loc, 'reference=%d: arrows are centred halfway along the pair separation in the reference system chosen' % ref, bool(ok), node=fn, key='centers %d' % ref)
 
 
+    # deferred solve: the systems given to the constructor are kept on the object; a later solve(cutoff=...) without them uses the stored reference AND the stored current one
+    calls = []
+
+    class Sy2(PyStub):
+        def __init__(self, tag):
+            self.tag, self.natoms = tag, 2
+
+            class A(PyStub):
+                pos = symarray('x' + tag, (2, 3), real=True)
+            self.atoms = A()
+
+        def dvect(self, i, nb):
+            calls.append((self.tag, int(i), tuple(nb)))
+            return symarray('d%s_%d_' % (self.tag, int(i)), (len(nb), 3), real=True)
+
+        def neighborlist(self, cutoff=None):
+            return NL2()
+
+    class NL2(PyStub):
+        def __getitem__(self, i):
+            return [[1], [0]][int(i)]
+    s0, s1 = Sy2('0'), Sy2('1')
+    obj = SymObj(cls, {'_DifferentialDisplacement__system0': s0, '_DifferentialDisplacement__system1': s1, '_DifferentialDisplacement__reference': 0, '_DifferentialDisplacement__neighbors': None}, 'self')
+    try:
+        _ev(ctx, DD).run_fn(fn, [obj], dict(cutoff=5))
+    except Opaque as e:
+        raise AnalysisError('DifferentialDisplacement.solve (stored systems): %s' % e)
+    dd = obj.attrs.get('_DifferentialDisplacement__ddvectors')
+    want = np.concatenate([symarray('d1_%d_' % i, (1, 3), real=True) - symarray('d0_%d_' % i, (1, 3), real=True) for i in (0, 1)])
+    ok = dd is not None and np.shape(dd) == (2, 3) and equal(np.asarray(dd, dtype=object), want, deep=False) and {c[0] for c in calls} == {'0', '1'}
+    ctx.ob('DDVECTORS', loc, 'systems omitted in the call: the stored reference and the stored current system are both used (differential displacement = current - reference, not reference - reference)', bool(ok),
+           'separations taken in systems %s' % sorted({c[0] for c in calls}), node=fn, key='dd stored systems')
+
+
 def displacement(ctx):
     c02.pairing(ctx)
 
